@@ -407,3 +407,34 @@ Proof.
           (conj (again_next_at_end hok o) (conj (brp_at_end hok o) (brp_walk_at_end hok o))))).
 Qed.
 Print Assumptions C09_end_of_stream_is_terminal.
+
+(* ---- (12) cumulative allocation, alloc <= a * |input| + b, beyond the sequential readers and the index ----- *)
+From GoCarProofs Require Import TotalSum.
+(* NewReader + Inspect(validate), ANY file, no guard: Inspect refuses a section shorter than its CID, so every
+   digest buffer is backed by bytes of its own section *)
+Theorem C09_inspect_total_allocation :
+  forall hok hdrdec o file validate,
+    sumN (inspect_allocs hok hdrdec o file validate) <= blen file + 2 * o_maxh o + max_digest_alloc.
+Proof. exact inspect_allocs_sum. Qed.
+Print Assumptions C09_inspect_total_allocation.
+(* NewReadOnly(backing, nil): linear when the index is embedded (any bytes) or when no visited section is
+   shorter than its CID (executable guard ro_open_ok); refuted without the guard by the 758-byte file that
+   also refutes Resume (known finding section-shorter-than-its-cid) *)
+Theorem C09_readonly_open_total_allocation_partial :
+  forall hdrdec o file, ro_open_ok hdrdec o file = true ->
+    sumN (ro_open_allocs hdrdec o file) <= 4 * blen file + 4 * ReadOnly.q_maxh o + max_digest_alloc + idx_chunk.
+Proof. exact ro_open_allocs_sum_guarded. Qed.
+Print Assumptions C09_readonly_open_total_allocation_partial.
+Theorem C09_readonly_open_total_allocation_refuted :
+  exists hdrdec o file,
+    ro_open_ok hdrdec o file = false /\
+    16 * blen file < sumN (ro_open_allocs hdrdec o file) /\
+    exists s, ReadOnly.ro_open hdrdec o file None = Ok s.
+Proof. exact (ex_intro _ _ (ex_intro _ _ (ex_intro _ _ ro_open_cumulative_refuted))). Qed.
+Print Assumptions C09_readonly_open_total_allocation_refuted.
+(* the index generation shared by NewReadOnly, OpenReadable and GenerateIndex over a ReaderAt, same guard *)
+Theorem C09_load_records_total_allocation_partial :
+  forall hdrdec o base src, load_records_ok hdrdec o base src = true ->
+    sumN (load_records_allocs hdrdec o base src) <= blen src + 2 * ReadOnly.q_maxh o + max_digest_alloc.
+Proof. exact load_records_allocs_sum_guarded. Qed.
+Print Assumptions C09_load_records_total_allocation_partial.
